@@ -1,8 +1,15 @@
 #!/bin/sh
-# Offline setup: build the harness (against /repo's working tree) and pre-translate PlusCal.
-set -e
-cd "$(dirname "$0")/.."
+# Offline setup: build every harness binary against /repo's working tree (cfg bs_verif on).
+# Puppets, TLC work directories and PlusCal translations are produced on demand by the checks
+# (translations of Stalk.tla / StalkSig.tla are committed).
+cd "$(dirname "$0")/.." || exit 2
 mkdir -p work evidence replays puppets/build
 [ -f harness/Cargo.lock ] || cp /repo/Cargo.lock harness/Cargo.lock
-(cd harness && CARGO_NET_OFFLINE=true cargo build --offline --bins 2>&1 | tail -3)
+cd harness || exit 2
+if ! CARGO_NET_OFFLINE=true cargo build --offline --bins > ../work/setup_build.log 2>&1; then
+    tail -40 ../work/setup_build.log
+    echo "setup: harness build failed"
+    exit 1
+fi
+tail -2 ../work/setup_build.log
 echo setup done
